@@ -43,3 +43,85 @@ def stage(d, top, rel):
     inner = os.path.relpath(rel, top)
     cwd = os.path.join(dst, os.path.dirname(inner))
     return cwd, os.path.basename(inner)
+
+
+# ---------------------------------------------------------------------------------------------------------------------
+# The repository's own test programs (compiler/src/tests/*.rs) as a corpus.  The suite runs them in memory through
+# `compiler::eval`; here every one of them is written to disk and sent through the CLI pipelines the suite never starts.
+_TEST_CACHE = None
+
+
+def _raw_strings(text):
+    """-> list of (start offset, end offset, content) of the Rust raw strings r#"..."# (any number of #) and of plain "..." strings"""
+    import re
+    out = []
+    i = 0
+    n = len(text)
+    while i < n:
+        m = re.compile(r'r(#+)"').search(text, i)
+        if not m:
+            break
+        close = '"' + m.group(1)
+        j = text.find(close, m.end())
+        if j < 0:
+            break
+        out.append((m.start(), j + len(close), text[m.end():j]))
+        i = j + len(close)
+    return out
+
+
+def test_projects():
+    """-> sorted list of (name, files {name: text}, entry, expects) where expects in {'ok', 'err', 'unknown'} is what the Rust test asserts about
+    the in-memory run (`.unwrap()` / `.unwrap_err()` / #[should_panic])."""
+    global _TEST_CACHE
+    if _TEST_CACHE is not None:
+        return _TEST_CACHE
+    import re
+    base = os.path.join(build.REPO, "compiler", "src", "tests")
+    out = []
+    if not os.path.isdir(base):
+        return out
+    for fn in sorted(os.listdir(base)):
+        if not fn.endswith(".rs"):
+            continue
+        try:
+            text = open(os.path.join(base, fn), encoding="utf-8").read()
+        except OSError:
+            continue
+        # split into test functions
+        heads = [m for m in re.finditer(r'((?:#\[[^\]]*\]\s*)+)fn\s+([A-Za-z0-9_]+)\s*\(\s*\)', text)]
+        for k, m in enumerate(heads):
+            if "#[test]" not in m.group(1):
+                continue
+            body = text[m.end(): heads[k + 1].start() if k + 1 < len(heads) else len(text)]
+            raws = _raw_strings(body)
+            if not raws:
+                continue
+            files = {}
+            entry = None
+            if "EvalEnvironment" in body:
+                for (s, e, content) in raws:
+                    pre = body[max(0, s - 120): s]
+                    nm = re.findall(r'"([^"\n]+\.ms)"\s*,\s*$', pre)
+                    if not nm:
+                        continue
+                    if entry is None:
+                        entry = nm[-1]
+                    files[nm[-1]] = content
+                for nm, lit in re.findall(r'\.add\(\s*"([^"\n]+\.ms)"\s*,\s*"((?:[^"\\]|\\.)*)"\s*\)', body):
+                    files.setdefault(nm, lit)
+            else:
+                entry = "main.ms"
+                files[entry] = raws[0][2]
+                if len(raws) > 1:      # several eval() calls in one test: one project per call
+                    for q, (s, e, content) in enumerate(raws[1:], 1):
+                        out.append((f"{fn[:-3]}::{m.group(2)}#{q}", {"main.ms": content}, "main.ms", "unknown"))
+            if entry is None:
+                continue
+            if "should_panic" in m.group(1) or "unwrap_err" in body:
+                expects = "err" if len(raws) == 1 or "EvalEnvironment" in body else "unknown"
+            else:
+                expects = "ok"
+            out.append((f"{fn[:-3]}::{m.group(2)}", files, entry, expects))
+    _TEST_CACHE = sorted(out, key=lambda t: t[0])
+    return _TEST_CACHE
